@@ -15,8 +15,10 @@ import (
 	"github.com/anishathalye/porcupine"
 
 	"github.com/ory/fosite"
+	"github.com/ory/fosite/handler/oauth2"
 	"github.com/ory/fosite/storage"
 	thmac "github.com/ory/fosite/token/hmac"
+	"github.com/ory/fosite/token/jwt"
 
 	"fverif/run"
 	"fverif/world"
@@ -145,8 +147,84 @@ func (p *pool) pick(r *rand.Rand, l *[]string) string {
 	return (*l)[r.Intn(len(*l))]
 }
 
+// c19Abandoned: a token request that is given up between its two phases (after the integrator has put its own claims into
+// the request's session, as the API invites it to) must leave no trace: what the server reports about the stored tokens of
+// the grant, and what later requests mint from them, is what it was before. Runs over the three session types fosite ships;
+// a session Clone that shares a map with the stored session it was cloned from shows here without any concurrency (and as a
+// data race under it).
+func c19Abandoned(c *run.Ctx) {
+	type kind struct {
+		name    string
+		jwt     bool
+		factory func(sub string) fosite.Session
+		extra   func(s fosite.Session) map[string]interface{}
+	}
+	kinds := []kind{
+		{"fosite.DefaultSession", false, func(sub string) fosite.Session { return &fosite.DefaultSession{Subject: sub} },
+			func(s fosite.Session) map[string]interface{} { return s.(*fosite.DefaultSession).GetExtraClaims() }},
+		{"oauth2.JWTSession", true, func(sub string) fosite.Session {
+			return &oauth2.JWTSession{JWTClaims: &jwt.JWTClaims{Subject: sub, Extra: map[string]interface{}{}}, JWTHeader: &jwt.Headers{Extra: map[string]interface{}{}}, Subject: sub}
+		}, func(s fosite.Session) map[string]interface{} { return s.(*oauth2.JWTSession).JWTClaims.Extra }},
+		{"openid.DefaultSession (harness wrapper)", false, nil, func(s fosite.Session) map[string]interface{} { return s.(*world.Sess).Claims.Extra }},
+		{"openid.DefaultSession (harness wrapper), JWT access tokens", true, nil, func(s fosite.Session) map[string]interface{} {
+			return s.(*world.Sess).GetJWTClaims().(*jwt.JWTClaims).Extra
+		}},
+	}
+	for _, k := range kinds {
+		w := world.New(world.Opts{JWTAccess: k.jwt, SessFactory: k.factory})
+		a := world.Basic("conf-a", "secret-of-a")
+		stamp := func(id string) world.TokenMut {
+			return func(ar fosite.AccessRequester) {
+				if m := k.extra(ar.GetSession()); m != nil {
+					m["handled_by"] = id
+				}
+			}
+		}
+		first := w.Token(url.Values{"grant_type": {"password"}, "username": {world.UserName}, "password": {world.UserPass}, "scope": {"offline fosite"}}, a, stamp("request-1"))
+		if first.Err != nil || first.S("refresh_token") == "" {
+			c.Inconcl("abandoned-request probe: no grant for " + k.name + ": " + world.ErrDetail(first.Err))
+			continue
+		}
+		handledBy := func(tok string, use fosite.TokenUse) string {
+			in := w.IntrospectAPI(tok, use)
+			if !in.Active || in.AR == nil {
+				return "<inactive>"
+			}
+			v, _ := k.extra(in.AR.GetSession())["handled_by"].(string)
+			return v
+		}
+		before := [2]string{handledBy(first.S("access_token"), fosite.AccessToken), handledBy(first.S("refresh_token"), fosite.RefreshToken)}
+		// a refresh that is given up after the integrator stamped its session
+		w.Abandon = func(fosite.AccessRequester) bool { return true }
+		ab := w.Token(url.Values{"grant_type": {"refresh_token"}, "refresh_token": {first.S("refresh_token")}}, a, stamp("request-2-abandoned"))
+		w.Abandon = nil
+		after := [2]string{handledBy(first.S("access_token"), fosite.AccessToken), handledBy(first.S("refresh_token"), fosite.RefreshToken)}
+		c.Case(fmt.Sprintf("abandoned-refresh session=%s before=%v after=%v", k.name, before, after))
+		c.Count("c19_abandoned_request_probes", 1)
+		hist := []string{"password grant stamped handled_by=request-1", "refresh presented, session stamped handled_by=request-2-abandoned, request given up before NewAccessResponse: " + fmt.Sprint(ab.Err),
+			fmt.Sprintf("stored access/refresh token report handled_by %v before, %v after", before, after)}
+		if before != after {
+			c.Violate(run.Violation{Kind: "abandoned-request-changed-state", Key: "abandoned-request-changed-state session=" + k.name,
+				Detail: "a refresh request that never reached NewAccessResponse changed what the stored tokens of the grant carry", History: hist})
+		}
+		// the retry mints from the stored state: its tokens carry its own stamp only
+		second := w.Token(url.Values{"grant_type": {"refresh_token"}, "refresh_token": {first.S("refresh_token")}}, a, func(ar fosite.AccessRequester) {
+			if v, _ := k.extra(ar.GetSession())["handled_by"].(string); v == "request-2-abandoned" {
+				c.Violate(run.Violation{Kind: "abandoned-request-changed-state", Key: "abandoned-request-leaked-into-next-request session=" + k.name,
+					Detail: "the session handed to the next refresh already carries the claim of the abandoned request", History: hist})
+			}
+		})
+		if second.Err != nil {
+			c.Count("c19_abandoned_retry_refused", 1)
+		}
+	}
+}
+
 func c19stress(c *run.Ctx) {
 	c.Need("c19_stress_ops", 1)
+	if c.Shard == 0 {
+		c19Abandoned(c)
+	}
 	rounds := 2
 	opsPer := 150
 	if !c.Quick() {
